@@ -76,6 +76,9 @@ type history struct {
 	// until Scan returns false (an error is recorded), then stops, and Err must
 	// keep reporting that earlier error.
 	Damaged bool
+	// Cut (with Damaged): instead of a garbage blob the input simply ENDS inside the fault
+	// block; a start-up or a read that is tried again then meets a plain end of input.
+	Cut bool
 	// FinalClose: call Close once more at the very end (otherwise the threads
 	// must have terminated by themselves after the stop).
 	FinalClose bool
@@ -182,6 +185,9 @@ func (h history) name() string {
 	}
 	if h.TempErr {
 		d += " then-temporary-timeout-errors-forever"
+	}
+	if h.Cut {
+		d += " input-ends-inside-the-block"
 	}
 	if h.Twin {
 		d += " twin-scanner-on-the-same-context"
